@@ -53,7 +53,9 @@ CodeIdx(idx, R) == [k \in 1..Len(idx) |-> IF 2 * idx[k] > R THEN idx[k] - 1 - R 
 cur == IF Family = "M" /\ Len(heap) <= 2 THEN 1 ELSE Len(heap)
 Focus == {1, cur} \cap Measures
 \* the most recent object of a factor class (object 2 or a slice / product of it)
-LastFactor == CHOOSE i \in Objs : ~IsCond(heap[i]) /\ ~IsMeasure(heap[i]) /\ \A j \in Objs : (~IsCond(heap[j]) /\ ~IsMeasure(heap[j])) => j <= i
+PlainFactors == {i \in Objs : ~IsCond(heap[i]) /\ ~IsMeasure(heap[i])}
+LastFactor == IF PlainFactors = {} THEN 2        \* the second operand is itself a measure / density
+              ELSE CHOOSE i \in PlainFactors : \A j \in PlainFactors : j <= i
 
 StepM ==
     \/ \E i \in Focus : \E q \in {"integral", "log_integral_light"} : AQuery(i, q)
@@ -64,8 +66,8 @@ StepM ==
            /\ AMultiply(cur, j, full, "multiply")
     \/ Room /\ cur \in Measures /\ \E j \in {2, LastFactor} : \E full \in BOOLEAN : AHadamard(cur, j, full)
     \* the factor operand itself may be sliced or reduced once; the derived factor then serves as second operand
-    \/ Room /\ LastFactor = 2 /\ \E idx \in SlicePatterns(NumR(heap[2])) : ASlice(2, idx, CodeIdx(idx, NumR(heap[2])))
-    \/ Room /\ LastFactor = 2 /\ NumR(heap[2]) > 1 /\ AProduct(2)
+    \/ Room /\ PlainFactors # {} /\ LastFactor = 2 /\ \E idx \in SlicePatterns(NumR(heap[2])) : ASlice(2, idx, CodeIdx(idx, NumR(heap[2])))
+    \/ Room /\ PlainFactors # {} /\ LastFactor = 2 /\ NumR(heap[2]) > 1 /\ AProduct(2)
     \/ Room /\ cur \in FamObjs /\ NumR(heap[cur]) > 1 /\ AProduct(cur)
     \/ Room /\ cur \in FamObjs /\ \E idx \in SlicePatterns(NumR(heap[cur])) : ASlice(cur, idx, CodeIdx(idx, NumR(heap[cur])))
 
